@@ -160,6 +160,14 @@ func (r *Restored) Recover(id uuid.UUID, watchdog time.Duration, opts ...coercio
 		eng.Quiesce(r.Log, 10*time.Millisecond, 5*time.Second)
 	}
 	out.Events = r.Log.Snapshot()
+	// Sequences that recovery finishes inside fixBlock run on context.Background(): the plugin sees no plan id.
+	// There is exactly one running plan per restored store here, so such invocations belong to it.
+	nilID := uuid.Nil.String()
+	for i := range out.Events {
+		if out.Events[i].PlanID == nilID && (out.Events[i].Kind == "begin" || out.Events[i].Kind == "end") {
+			out.Events[i].PlanID = id.String()
+		}
+	}
 	return out
 }
 
